@@ -107,6 +107,24 @@ func renderLoad(tp *simrt.Tape, res *Result, w ref.Warrior, M uint64, is88 bool)
 	if spell > 0 {
 		feats = append(feats, "signed-or-congruent-fields")
 	}
+	// where the entry point is written is a choice too: ORG n first and/or a
+	// bare END last, END n last, ORG n last
+	switch tp.Draw("rl.entrystyle", 6) {
+	case 0:
+		body := lines
+		if is88 {
+			body = lines[:len(lines)-1]
+		} else {
+			body = lines[1:]
+		}
+		lines = append([]string{fmt.Sprintf("ORG %d", w.Start)}, append(append([]string{}, body...), "END")...)
+		feats = append(feats, "org-first-bare-end-last")
+	case 1:
+		if !is88 {
+			lines = append(append([]string{}, lines[1:]...), fmt.Sprintf("ORG %d", w.Start))
+			feats = append(feats, "org-last")
+		}
+	}
 	flag := func(name string, den int) bool {
 		if tp.Draw("rl."+name, den) == 0 {
 			feats = append(feats, name)
